@@ -198,9 +198,11 @@ class _Endpoint:
         try:
             fn(*a, **kw)
             return True
-        except (h2.exceptions.StreamClosedError, h2.exceptions.NoSuchStreamError, h2.exceptions.StreamIDTooLowError):
+        except (h2.exceptions.StreamClosedError, h2.exceptions.NoSuchStreamError, h2.exceptions.StreamIDTooLowError,
+                KeyError):
             # StreamIDTooLow: h2 has already forgotten a stream the proxy reset in the same batch of frames
-            # (the peers only ever send on stream ids they have seen or allocated themselves)
+            # (the peers only ever send on stream ids they have seen or allocated themselves); KeyError: hyper-h2's
+            # send_data looks an evicted closed stream up in its dict without its usual guard
             self.skipped_sends += 1
             return False
         except h2.exceptions.ProtocolError as e:
@@ -697,7 +699,14 @@ class H2Client(_Endpoint):
             return
         if t == "D":
             data = B(st["chunks"][fr["i"]])
-            if len(data) > c.local_flow_control_window(sid) or len(data) > c.max_outbound_frame_size:
+            try:
+                window = c.local_flow_control_window(sid)
+            except (h2.exceptions.StreamClosedError, h2.exceptions.NoSuchStreamError):
+                # the proxy has reset / finished this stream meanwhile (same legitimate race as in send_guard)
+                self.skipped_sends += 1
+                rec["skipped"] += 1
+                return
+            if len(data) > window or len(data) > c.max_outbound_frame_size:
                 raise PeerHarnessError("client request chunk exceeds the proxy's flow-control window / frame size")
             if self.send_guard(c.send_data, sid, data, end_stream=bool(fr.get("end"))):
                 rec["chunks"].append(fr["i"])
